@@ -1,4 +1,5 @@
 """C04 — immutable structures and immutable fields never change after construction."""
+import collections
 import copy
 import json
 import re
@@ -10,7 +11,7 @@ from .. import dump, gen, aliasprobe
 
 ID = "C04"
 SUITE = "mutate+alias"
-LEAN_TARGETS = ["TypedpyModel.Props.C04", "TypedpyModel.Audit.C04"]
+LEAN_TARGETS = ["TypedpyModel.Props.C04", "TypedpyModel.Props.C04Alias", "TypedpyModel.Props.C04Subclass", "TypedpyModel.Audit.C04"]
 AUDIT = "C04"
 THEOREMS = re.findall(r"#print axioms (\S+)", open(__file__.rsplit("/harness/", 1)[0] + "/lean/TypedpyModel/Audit/C04.lean").read())
 RULE = ("(a) mutate suite on ImmutableStructure classes and classes with Immutable* fields: histories of setattr/del/"
@@ -36,9 +37,40 @@ ASSUMPTIONS = [
 
 # ---- field-level immutability of values that are not wrapper objects (Anything / Tuple / Set declared
 # immutable=True inside a MUTABLE structure): oracle-only cases, built directly (no model counterpart)
+def _tag_class():
+    """a hashable, mutable Structure (elements of untyped immutable sets / keys)"""
+    from typedpy import Structure, String, Array, Integer
+    Tag = type("Tag", (Structure,), {"name": String, "labels": Array[String], "weight": Integer, "_required": ["name"]})
+    return Tag
+
+
+def _user_immutable(base_name):
+    """the documented way to declare an immutable variant of a field type: class X(ImmutableField, <Field>)"""
+    import typedpy as T
+    return type("Immutable" + base_name, (T.ImmutableField, getattr(T, base_name)), {})
+
+
 def _immfield_specs():
-    from typedpy import Anything, Integer, Tuple, Array, Map, String, Set, Deque
+    from typedpy import Anything, Integer, Tuple, Array, Map, String, Set, Deque, ImmutableSet
+    Tag = _tag_class()
+    tags = lambda: [Tag(name="a", labels=["x"], weight=1), Tag(name="b", labels=["y", "z"], weight=2)]
     return {
+        # untyped immutable sets holding mutable (hashable) structures: the caller keeps the element objects
+        "set-untyped-structs": (lambda: Set(immutable=True), [lambda: set(tags()), lambda: frozenset(tags())]),
+        "immutableset-untyped-structs": (lambda: ImmutableSet(), [lambda: set(tags()), lambda: frozenset(tags())]),
+        "immutableset-typed-structs": (lambda: ImmutableSet(items=Tag), [lambda: frozenset(tags())]),
+        "tuple-structs": (lambda: Tuple(items=[Anything, Integer], immutable=True), [lambda: (tags()[0], 1)]),
+        "anything-structs": (lambda: Anything(immutable=True), [lambda: {"k": tags()}, lambda: frozenset(tags())]),
+        # user-defined immutable variants of the multi-field wrappers and of the collection fields
+        "user-immutable-anyof-scalar": (lambda: _user_immutable("AnyOf")[Integer, String], [3, "s"]),
+        "user-immutable-anyof-array": (lambda: _user_immutable("AnyOf")[Array[Integer], String], [[1, 2, 3], "s"]),
+        "user-immutable-anyof-map": (lambda: _user_immutable("AnyOf")[Map[String, Integer], Integer], [{"a": 1}, 4]),
+        "user-immutable-oneof": (lambda: _user_immutable("OneOf")[Array[Integer], String], [[1, 2, 3], "s"]),
+        "user-immutable-allof": (lambda: _user_immutable("AllOf")[Array[Integer], Array(minItems=1)], [[1, 2, 3], [4]]),
+        "user-immutable-array": (lambda: _user_immutable("Array")(items=Integer), [[1, 2, 3], [4]]),
+        "user-immutable-deque": (lambda: _user_immutable("Deque")(items=Integer), [collections.deque([1, 2]), collections.deque([4])]),
+        "user-immutable-map": (lambda: _user_immutable("Map")(items=[String, Integer]), [{"a": 1}, {"b": 2}]),
+        "user-immutable-integer": (lambda: _user_immutable("Integer")(), [3, 4]),
         "anything": (lambda: Anything(immutable=True),
                      [["a", ["b"]], {"k": [1]}, (["a", "b"], "meta"), [([1],)], {"k": ({"z": [1]},)}, [], {}, set()]),
         "tuple": (lambda: Tuple(items=[Anything, Integer], immutable=True), [(["a"], 1), ({"k": 1}, 2), (([1],), 3)]),
@@ -66,20 +98,37 @@ def immfield_cases():
 def run_immfield(case):
     from typedpy import Structure, Integer
     mk, vals = _immfield_specs()[case["spec"]]
-    v = vals[case["value"]]
+    val = lambda i: (vals[i]() if callable(vals[i]) else copy.deepcopy(vals[i]))
+    v = val(case["value"])
     ctx = C.make_ctx()
     try:
         H = type("H", (Structure,), {"f": mk(), "n": Integer, "_required": ["f"]})
-        build = lambda: H(f=copy.deepcopy(v), n=1)
+        build = lambda: H(f=val(case["value"]), n=1)
         build()
     except Exception as e:
         return {"skip": f"{type(e).__name__}: {e}"[:200]}
     res = {"probe": [r for r in aliasprobe.probe(build, ctx) if r["changed"] and r["field"] == "f"][:50]}
+    # direct attempts on the field itself: re-assignment (another valid value), deletion, assignment of None
+    direct = []
+    attempts = [("setattr-other", lambda x, i=i: setattr(x, "f", val(i))) for i in range(len(vals)) if i != case["value"]]
+    attempts += [("setattr-none", lambda x: setattr(x, "f", None)), ("delitem", lambda x: x.__delitem__("f")),
+                 ("delattr", lambda x: delattr(x, "f"))]
+    for label, act in attempts:
+        x = build()
+        fp0 = (aliasprobe.fingerprint(x, ctx), repr(getattr(x, "f", "<missing>")))
+        try:
+            act(x)
+            raised = None
+        except Exception as e:
+            raised = type(e).__name__
+        if (aliasprobe.fingerprint(x, ctx), repr(getattr(x, "f", "<missing>"))) != fp0:
+            direct.append({"op": label, "raised": raised})
+    res["direct"] = direct
     leaks = []
-    n_targets = len(aliasprobe.reachable_mutables(copy.deepcopy(v)))
+    n_targets = len(aliasprobe.reachable_mutables(val(case["value"])))
     for ti in range(n_targets):
-        for mi in range(len(aliasprobe.mutation_attempts(aliasprobe.reachable_mutables(copy.deepcopy(v))[ti][1]))):
-            arg = copy.deepcopy(v)
+        for mi in range(len(aliasprobe.mutation_attempts(aliasprobe.reachable_mutables(val(case["value"]))[ti][1]))):
+            arg = val(case["value"])
             x = H(f=arg, n=1)
             fp0 = aliasprobe.fingerprint(x, ctx)
             path, o = aliasprobe.reachable_mutables(arg)[ti]
@@ -143,8 +192,9 @@ def run_undefimm(case):
 
 
 def pre_build():
-    from extract import wrappers
+    from extract import wrappers, aliasing_c04
     wrappers.generate()
+    aliasing_c04.generate()
 
 
 def alias_cases(rng, n):
@@ -357,6 +407,9 @@ def judge(case, impl, model):
         for r in impl.get("probe", []):
             fails.append((f"immfield-leak:{case['spec']}:{r['via']}:{r['mut']}",
                           f"immutable field ({case['spec']}, immutable=True) of a mutable structure changed by {r['mut']} on an object obtained via {r['via']}"))
+        for r in impl.get("direct", []):
+            fails.append((f"immfield-changed:{case['spec']}:{r['op']}",
+                          f"immutable field ({case['spec']}) of a mutable structure changed by {r['op']} (raised: {r['raised']})"))
         for r in impl.get("ctor_leaks", []):
             fails.append((f"immfield-ctor-arg-alias:{case['spec']}:{r['via']}:{r['mut']}",
                           f"immutable field ({case['spec']}) changed by mutating the constructor argument ({r['via']}, {r['mut']})"))
